@@ -66,6 +66,9 @@ def _worker(args):
         chk, _ = run_rules(pid, repo, "quick")
     except AnalysisError as e:
         return (w.name, "analysis-error", str(e))
+    except Exception as e:  # a rule crashed on the variant: a defect of the checker, not a verdict
+        import traceback
+        return (w.name, "internal-error", traceback.format_exc()[-600:])
     rules = w.rule if isinstance(w.rule, (tuple, list)) else (w.rule,)
     fresh = [f for f in chk.findings if f.key not in baseline]
     hit = [f for f in fresh if any(f.rule.startswith(r) for r in rules)]
